@@ -15,3 +15,23 @@ Fixpoint set_nth (l : list N) (i : nat) (v : N) : list N :=
   | _ :: t, O => v :: t
   | x :: t, S k => x :: set_nth t k v
   end.
+
+(* f(l[i:]) for a function that stores into its argument: the first i elements are untouched *)
+Definition on_suffix (l : list N) (i : nat) (g : list N -> list N) : list N := firstn i l ++ g (skipn i l).
+
+(* binary.LittleEndian.PutUintNN: k bytes, least significant first *)
+Fixpoint put_le (l : list N) (k : nat) (v : N) : list N :=
+  match k, l with
+  | O, _ => l
+  | S k', x :: t => (v mod 256) :: put_le t k' (v / 256)
+  | S _, [] => []
+  end.
+
+(* copy(dst[i:], src): as many elements as fit, and how many that was *)
+Fixpoint overwrite (dst src : list N) : list N :=
+  match dst, src with
+  | _ :: d, s :: r => s :: overwrite d r
+  | _, _ => dst
+  end.
+Definition copy_at (dst : list N) (i : nat) (src : list N) : list N * N :=
+  (on_suffix dst i (fun s => overwrite s src), N.of_nat (Nat.min (length dst - i) (length src))).
